@@ -158,6 +158,13 @@ func init() {
 		return nil
 	})
 	reg("(*github.com/sourcegraph/conc.WaitGroup).Wait", nop)
+	// pool.Pool: every task runs to completion when it is submitted (ErrorPool / ResultPool /
+	// ContextPool are thin wrappers that funnel through Pool.Go and Pool.Wait and run from source)
+	reg("(*github.com/sourcegraph/conc/pool.Pool).Go", func(in *Interp, c *Frame, fn *ssa.Function, a []Value) Value {
+		in.callClosure(a[1].(*Closure), nil, c)
+		return nil
+	})
+	reg("(*github.com/sourcegraph/conc/pool.Pool).Wait", nop)
 	reg("(*github.com/sourcegraph/conc.WaitGroup).WaitAndRecover", nop)
 
 	reg("maps.clone", func(in *Interp, c *Frame, fn *ssa.Function, a []Value) Value {
